@@ -85,8 +85,18 @@ def _driver(rc: RuleCtx):
             res.violation("M3", m.fi.module, m.fi.name, m.loop, f"{tag}: expected one detector call, one retained knee and two child pushes per step",
                           f"calls {len(calls)}, appends {len(apps)}, pushes {len(pushes)}", "1, 1, 2", construct="step shape")
             continue
-        # M1
-        if all(g_implies(e.guard, gate) for e in step_events):
+        # M1: the size gate, either tested on the popped range or maintained as an invariant of the work stack (the whole curve is
+        # only seeded when it has more than t2 points and a child is only pushed when it has)
+        early = [g_ for g_, _v in m.frame_pre.returns]
+        reach = g_not(g_or(*early)) if early else TRUE
+        seed_inv = bool(early) and g_implies(reach, canon_sign(sym("n") - t2, OPS[">"]))
+        push_inv = all(isinstance(p.items[-1], Rat) and isinstance(p.items[-2], Rat)
+                       and g_implies(p.guard, canon_sign(p.items[-1] - p.items[-2] - t2, OPS[">"])) for p in pushes)
+        by_invariant = seed_inv and push_inv
+        assume = gate if by_invariant else TRUE
+        if by_invariant:
+            res.ok("M1", tag, "every range on the work stack has more than t2 points: the whole curve is seeded only if n > t2, a child is pushed only if it has more than t2 points")
+        elif all(g_implies(e.guard, gate) for e in step_events):
             res.ok("M1", tag, "detector call, retained knee and pushes all require len(pt) > t2")
         else:
             res.violation("M1", m.fi.module, m.fi.name, m.loop, "a range with at most t2 points can still be examined / split (size gate is not len(pt) > t2)",
@@ -99,7 +109,7 @@ def _driver(rc: RuleCtx):
         r = anf.opaque("call:" + callee, ev.to_rat(pt), coef, array=True, extra=("points", "coef"))
         big = canon_sign(L - C(2), OPS[">"])
         want = g_and(big, gate, canon_sign(r - t1, OPS["<"] if mname == "r2" else OPS[">="]))
-        got = g_and(big, calls[0].guard)
+        got = g_and(big, assume, calls[0].guard)
         if g_equiv(got, want):
             res.ok("M2", tag, f"recursion iff {'R2' if mname == 'r2' else 'SMAPE'} of the endpoint line {'<' if mname == 'r2' else '>='} t1 (on the popped range)")
         else:
@@ -120,7 +130,12 @@ def _driver(rc: RuleCtx):
             res.violation("M3", m.fi.module, m.fi.name, calls[0].node, "the detector is not applied to exactly the popped range points[left:right]", _short(rv), "get_knee(points[left:right])",
                           construct="detector argument")
         k = rv + m.left
-        if apps[0].args[0].equals(k) and g_equiv(apps[0].guard, pushes[0].guard) and g_equiv(pushes[0].guard, pushes[1].guard):
+        def _same_step(p):
+            if g_equiv(apps[0].guard, p.guard):
+                return True
+            # with the gate kept as a stack invariant a child is pushed on an accepted step iff it is large enough
+            return by_invariant and g_equiv(g_and(assume, p.guard), g_and(assume, apps[0].guard, canon_sign(p.items[-1] - p.items[-2] - t2, OPS[">"])))
+        if apps[0].args[0].equals(k) and _same_step(pushes[0]) and _same_step(pushes[1]):
             res.ok("M4", tag, "one knees.append(rv + left) per accepted step, under the same guard as the two pushes")
         else:
             res.violation("M4", m.fi.module, m.fi.name, apps[0].node, "the retained knee is not the absolute index rv + left recorded once per accepted step",
